@@ -336,7 +336,7 @@ def _sqlite(check: Check):
     check.ob('R-SIB.sqlite', mm, f'SELECT {want}', ok, 'the reader selects exactly the columns it interprets', nontrivial=False)
 
 
-def _pickle(check: Check):
+def _pickle(check: Check, rule_prefix: str = 'R-PAIR'):
   repo = check.repo
   sv, ld = repo.func(SER, 'save_state'), repo.func(SER, 'load_state')
   sf, lf = FuncFlow.of(repo, sv), FuncFlow.of(repo, ld)
@@ -350,7 +350,7 @@ def _pickle(check: Check):
   dump = any(ff_call(sf, c) == 'pickle.dump' and sf.param_of(c.args[0]) == sv.positional_params[0] for _, c in sf.calls())
   load = any(ff_call(lf, c) == 'pickle.load' for _, c in lf.calls())
   ok = dump and load and gfile_mode(sf) == 'wb' and gfile_mode(lf) == 'rb'
-  check.ob('R-PAIR.pickle', sv, 'pickle.dump(state, f[wb]) / pickle.load(f[rb])', ok,
+  check.ob(rule_prefix + '.pickle', sv, 'pickle.dump(state, f[wb]) / pickle.load(f[rb])', ok,
            f'state is pickled to a binary file and unpickled from a binary file (dump={dump}, load={load}, modes '
            f'{gfile_mode(sf)}/{gfile_mode(lf)})')
   # load reads the path it is given
@@ -358,7 +358,14 @@ def _pickle(check: Check):
   for _, c in lf.calls():
     if ext_path(lf, c) == 'tensorflow.io.gfile.GFile' and c.args:
       okp = lf.param_of(c.args[0]) == ld.positional_params[0]
-  check.ob('R-PAIR.pickle', ld, 'GFile(path, rb)', okp, 'load_state opens exactly the path it is asked for')
+  check.ob(rule_prefix + '.pickle', ld, 'GFile(path, rb)', okp, 'load_state opens exactly the path it is asked for')
+  # what is loaded is what is returned; what is given is what is dumped - no conversion on either side
+  rets = [rv for _, rv in lf.returns() if rv is not None]
+  raw = bool(rets) and all(any(isinstance(v, ast.Call) and ff_call(lf, v) == 'pickle.load' for v in lf.expand(rv)) for rv in rets)
+  check.ob(rule_prefix + '.pickle-raw', ld, 'return pickle.load(f)', raw,
+           'the unpickled object is returned as it is: a conversion (device_get, np.asarray, tree_map ...) changes leaf types (jax arrays '
+           'become numpy arrays, weak types are lost) and a resumed run no longer computes what the uninterrupted run computed',
+           node=rets[0] if rets else None)
 
 
 def ff_call(ff: FuncFlow, c: ast.Call) -> Optional[str]:
